@@ -34,6 +34,8 @@ NONTRIVIAL = {
     "tx_delete_match_then_write_then_pattern_command", "tx_delete_match_repeated_with_the_identical_pattern",
     "tx_identical_delete_match_after_a_marked_store_key_was_written_again",
     # an iteration consumed step by step while the store changes under it
+    "tx_judged_read_was_already_used_outside_a_transaction", "tx_judged_read_was_already_used_in_an_earlier_transaction",
+    "invalidate_template_field_starts_with_a_subscript",
     "iter_matching_key_removed_between_steps", "iter_write_into_a_full_store_between_steps",
     "iter_matching_key_expires_between_steps", "iter_matching_key_rewritten_between_steps",
 }
@@ -360,7 +362,7 @@ def split_cases(chk: Check, n_sample: int | None) -> list[tuple[str, dict]]:
                  rng.choice(["fast", "locked", "serializable"])) for _ in range(n_sample)]
     for si, pl, cmd, mode in todo:
         texts, pat = scenarios[si]
-        c = G.split_case(rng, texts, list(pl), pat, cmd, mode)
+        c = G.with_warm(G.split_case(rng, texts, list(pl), pat, cmd, mode), zlib.crc32(repr((si, pl, cmd, mode)).encode()))
         if G.well_formed(c):
             out.append((f"split:{si}:{''.join(p + '/' for p in pl)}{cmd}:{mode}", c))
     return out
@@ -376,7 +378,7 @@ def multi_cases(chk: Check, n_sample: int | None) -> list[tuple[str, dict]]:
     else:
         todo = [(chk.rng.choice(space), chk.rng.choice(["fast", "locked", "serializable"])) for _ in range(n_sample)]
     for pt, mode in todo:
-        c = G.multi_case(*pt, mode)
+        c = G.with_warm(G.multi_case(*pt, mode), zlib.crc32(repr((pt, mode)).encode()))
         if G.well_formed(c):
             pl, first, w, cmd, pat = pt
             out.append((f"multi:{''.join(pl)}:{first[0]}:{first[1]}:{w[0]}:{w[1]}:{cmd}:{pat}:{mode}", c))
@@ -521,6 +523,13 @@ def run(chk: Check) -> int:
         "pyglob_selfcheck_pairs": st.get("pyglob_selfcheck_pairs", 0),
         "corpus_cases": len(corpus),
         "tx_split_cases": st.get("tx_splits", 0),
+        "warm_up_rule": "pattern reads BEFORE the judged transaction on the same Cache object (scan / get_match outside any transaction, or inside an earlier "
+                        "transaction that commits nothing): five warm-ups + none, assigned round-robin (by a hash of the case) to every split case and every "
+                        "multi-command case, drawn for 45% of the random transaction cases and 30% of the invalidate-in-a-transaction cases; the same reads are "
+                        "issued on the direct copy. Counted: the judged read had already been used outside a transaction / in an earlier transaction",
+        "invalidate_accessor_rule": "half of the invalidate cases reach the text of an argument through an accessor of the template - {x[k]} with a dict "
+                                    "argument, {x.a} with an object, {x[k].a} with a dict of objects - instead of a plain {x}; lists are not used (the "
+                                    "formatter renders a list argument as text before it indexes it)",
         "iteration_cases": st.get("iter_cases", 0),
         "iteration_rule": "scan / get_match consumed STEP BY STEP (`__anext__` by `__anext__`) on Memory, the facade and the signed facade, the consumer "
                           "issuing other commands between two steps: delete of a key (visited or not yet), write of a new or an existing key - into an "
